@@ -95,6 +95,13 @@ class Ctx:
         self._account(r, label, "G")
         if r.timed_out or not r.ok:
             raise Machinery("generator %s failed (timed_out=%s):\n%s" % (label, r.timed_out, r.stdout[-2500:]))
+        out = []
+        seen = set()
+        for p in r.prints:            # an action can be evaluated more than once by TLC: de-duplicate
+            if p in seen:
+                continue
+            seen.add(p)
+        r.prints = list(seen) if False else [p for p in dict.fromkeys(r.prints)]
         out = r.json_prints()
         if not out:
             raise Machinery("generator %s produced no behaviours" % label)
@@ -263,6 +270,13 @@ def main(argv=None):
                 obj = json.load(f)
             mod.replay(ctx, obj)
         else:
+            cdir = os.path.join(ROOT, "corpus", pid)
+            if os.path.isdir(cdir):
+                for fn in sorted(os.listdir(cdir)):
+                    if fn.endswith(".json"):
+                        with open(os.path.join(cdir, fn)) as f:
+                            mod.replay(ctx, json.load(f))
+                        ctx.extra["corpus_replayed"] = ctx.extra.get("corpus_replayed", 0) + 1
             mod.run(ctx)
         if ctx.violations:
             rc = 1
